@@ -400,9 +400,13 @@ class Spectrum:
 
         """
         if waveunit != self.waveunit:
-            self.to(waveunit)
+            # sample a converted copy so the caller's spectrum is left untouched
+            spectrum = self.copy()
+            spectrum.to(waveunit)
+        else:
+            spectrum = self
 
-        interp = scipy.interpolate.interp1d(self.wave, self.value, kind=method,
+        interp = scipy.interpolate.interp1d(spectrum.wave, spectrum.value, kind=method,
                                             copy=False, bounds_error=False,
                                             fill_value=fill_value)
 
@@ -511,7 +515,13 @@ class Spectrum:
                              'wavelength, consider using Spectrum.integrate() instead.')
 
         if waveunit != self.waveunit:
-            self.to(waveunit)
+            # bin a converted copy so the caller's spectrum is left untouched
+            spectrum = self.copy()
+            spectrum.to(waveunit)
+            return spectrum.bin(wave, interp_method=interp_method, ends=ends,
+                                preserve_power=preserve_power,
+                                sample_method=sample_method,
+                                fill_value=fill_value, waveunit=waveunit)
 
         if interp_method == 'trapz':
             dx = np.diff(wave)/2
@@ -525,7 +535,8 @@ class Spectrum:
                 raise ValueError('Unknown ends ', ends)
 
             # sample
-            f = self.sample(x, method=sample_method, fill_value=fill_value)
+            f = self.sample(x, method=sample_method, fill_value=fill_value,
+                            waveunit=waveunit)
 
             # apply the chained trapezoidal rule
             bins = np.array([])
@@ -550,7 +561,8 @@ class Spectrum:
                 raise ValueError('Unknown ends ', ends)
 
             # sample
-            f = self.sample(x, method=sample_method, fill_value=fill_value)
+            f = self.sample(x, method=sample_method, fill_value=fill_value,
+                            waveunit=waveunit)
 
             # apply the chained simpson's rule
             bins = np.array([])
@@ -897,6 +909,12 @@ def _interp_common(s1, s2, sampling, method, fill_value):
     s2_value : ndarray
 
     """
+    # express the second operand in the wavelength unit of the first without
+    # modifying the caller's object
+    if s2.waveunit != s1.waveunit:
+        s2 = s2.copy()
+        s2.to(s1.waveunit)
+
     # compute a common wavelength array that spans both spectrum and has the
     # desired sampling
     minwave = min(s1.wave.min(), s2.wave.min())
@@ -915,8 +933,10 @@ def _interp_common(s1, s2, sampling, method, fill_value):
     s2_wave = commonwave[s2_index]
 
     # sample each Spectrum at the requested sampling
-    s1_samplevalue = s1.sample(s1_wave, method=method, fill_value=fill_value)
-    s2_samplevalue = s2.sample(s2_wave, method=method, fill_value=fill_value)
+    s1_samplevalue = s1.sample(s1_wave, method=method, fill_value=fill_value,
+                               waveunit=s1.waveunit)
+    s2_samplevalue = s2.sample(s2_wave, method=method, fill_value=fill_value,
+                               waveunit=s1.waveunit)
 
     # create nominal value arrays
     s1_value = fill_value * np.ones(commonwave.shape)
